@@ -15,6 +15,7 @@ The limits are the largest the client has asked for so far (`hi`), i.e. the clie
 it does not shrink them mid-stream.
 -/
 import Mmmbbb.Model.Stream
+import Mmmbbb.Proofs.Notify
 namespace Mmmbbb.Stream
 
 structure SInv (s : St) : Prop where
@@ -583,5 +584,20 @@ example :
     s.pending = [(3, 5)] ∧ s.token = true ∧ s.waiting = true := by decide
 /-- a single oversized message goes out when nothing is outstanding -/
 example : (run {} [.setFc 2 10, .loop, .query [(1, 40), (2, 3)]]).pending = [(1, 40)] := by decide
+
+/-- **C11 (the sender's fetch does not sleep through a change)**: the sender of a streaming pull
+    fetches through the same wait loop as a Pull (`GetSubscriptionMessages.execute`): it registers for
+    wake-ups *before* it queries (regenerated from the source), so — by the wake-up protocol's
+    invariant, for every interleaving of any waiters and writers — a fetch that would sleep while
+    something is deliverable on its subscription always has a committed writer whose wake-up call is
+    still to come: free capacity is not left unused until the fetch's own timeout. -/
+theorem C11_fetch_no_lost_wakeup (subs maxes : Nat → Nat) (writers : Nat → List (Nat × Nat) × List Nat) (avail : Nat → Nat)
+    (hcov : ∀ j s, 0 < Notify.addsFor (writers j).1 s → s ∈ (writers j).2) (sched : List Notify.Proc) :
+    Extracted.pullRegistersBeforeQuery = true ∧
+    (let σ := Notify.run Notify.Cfg.ofSource (Notify.init subs maxes writers avail) sched
+     ∀ i, Notify.StuckProne σ.open (σ.waiter i) → 0 < σ.avail (σ.waiter i).sub →
+      ∃ j, (σ.writer j).pc = 1 ∧ (σ.waiter i).sub ∈ (σ.writer j).wakes) := by
+  have hg : Notify.Cfg.ofSource.Good := by constructor <;> decide
+  exact ⟨by decide, ((Notify.Inv.init subs maxes writers avail hcov).run Notify.Cfg.ofSource hg sched).nolost⟩
 
 end Mmmbbb.Stream
